@@ -101,6 +101,7 @@ func checkTx(r *rec.Run, tx *rec.Tx, calls []rec.Call, nb int, acyclic bool, fd 
 	}
 	// 3. visibility
 	vetoSeen := false
+	fullCancel := false
 	for i, c := range calls {
 		ph := phaseOf(c.Name, names)
 		final := phaseRank[ph] >= 3
@@ -116,16 +117,20 @@ func checkTx(r *rec.Run, tx *rec.Tx, calls []rec.Call, nb int, acyclic bool, fd 
 				return fmt.Errorf("tx %s(%v): final handler %s ran in a canceled transition", tx.Type, tx.Called, c.Name)
 			}
 		}
-		// 4. veto stops everything (non-auto)
-		if vetoSeen && !tx.IsAuto {
+		// 4. veto stops everything (in auto transitions only a veto owned by an Auto state is a partial rejection)
+		if vetoSeen && fullCancel {
 			return fmt.Errorf("tx %s(%v): handler %s ran after a negotiation handler returned false; sequence %v", tx.Type, tx.Called, c.Name, callNames(calls))
 		}
 		if !c.Ret && !final {
 			vetoSeen = true
 			_ = i
+			owner := ownerOf(c.Name, ph, names)
+			if !tx.IsAuto || owner == "" || !sc[owner].Auto {
+				fullCancel = true
+			}
 		}
 	}
-	if vetoSeen && !tx.IsAuto {
+	if vetoSeen && fullCancel {
 		if tx.Accepted || !tx.TimeAfter.Equal(true, tx.TimeBefore) {
 			return fmt.Errorf("tx %s(%v): vetoed but accepted=%v time %v -> %v", tx.Type, tx.Called, tx.Accepted, tx.TimeBefore, tx.TimeAfter)
 		}
@@ -214,6 +219,25 @@ func checkTx(r *rec.Run, tx *rec.Tx, calls []rec.Call, nb int, acyclic bool, fd 
 	return nil
 }
 
+// ownerOf: the state a negotiation handler decides about.
+func ownerOf(name, phase string, names []string) string {
+	switch phase {
+	case "exit", "enter":
+		return stateOf(name, phase)
+	case "self":
+		return name[:len(name)/2]
+	case "statestate":
+		for _, a := range names {
+			for _, b := range names {
+				if a != b && name == a+b {
+					return b
+				}
+			}
+		}
+	}
+	return ""
+}
+
 func callNames(calls []rec.Call) []string {
 	var r []string
 	for _, c := range calls {
@@ -261,7 +285,7 @@ func runCase(c Case, st *ev.Stats) (negPositions []int, err error) {
 					return fmt.Errorf("after %s: %w", out.Step, err)
 				}
 				for i, cl := range calls {
-					if !gen.IsFinalName(cl.Name) && !tx.IsAuto {
+					if !gen.IsFinalName(cl.Name) {
 						negPositions = append(negPositions, cl.Seq)
 					}
 					if c.VetoAt == cl.Seq && i > 0 {
